@@ -149,6 +149,11 @@ class JsonSchemaParser:
         if ref:
             return ForwardRef(self.get_def_name(ref))
 
+        if not type and not conditions and unprovided(value):
+            # a schema without 'type' still constrains values: derive the type its keywords apply to,
+            # otherwise the constraints would be attached to Any and silently dropped
+            type = self.infer_type(schema)
+
         constraints = {}
         if with_constraints:
             constraints = self.get_constraints(schema)
@@ -198,6 +203,22 @@ class JsonSchemaParser:
                 constraints=constraints
             )
         return t
+
+    TYPE_KEYWORDS = {
+        'object': ('properties', 'required', 'additionalProperties', 'minProperties', 'maxProperties',
+                   'dependentRequired', 'propertyNames', 'patternProperties'),
+        'array': ('items', 'prefixItems', 'minItems', 'maxItems', 'uniqueItems',
+                  'contains', 'minContains', 'maxContains'),
+        'string': ('minLength', 'maxLength', 'pattern'),
+        'number': ('minimum', 'maximum', 'exclusiveMinimum', 'exclusiveMaximum', 'multipleOf'),
+    }
+
+    @classmethod
+    def infer_type(cls, schema: dict) -> Optional[str]:
+        for name, keywords in cls.TYPE_KEYWORDS.items():
+            if any(key in schema for key in keywords):
+                return name
+        return None
 
     @classmethod
     def get_attname(cls, name: str, excludes: list = None):
